@@ -45,6 +45,8 @@ echo "build=$BUILD existing-suite-with-change=$SUITE demo-with-change=$DEMO_WITH
 cd /verif
 if ! git -C /repo diff --quiet; then echo "/repo has uncommitted changes; refusing"; exit 2; fi
 git -C /repo apply "$OUT/patch.diff" || { echo "patch does not apply to /repo"; exit 2; }
+# evidence files describe runs on the real tree: keep them out of harm's way
+rm -rf /verif/.work/evidence.keep && cp -r /verif/evidence /verif/.work/evidence.keep
 RESULTS=""
 for p in $PROPS; do
   ./check $p quick > "$OUT/check_$p.log" 2>&1; rc=$?
@@ -53,6 +55,7 @@ for p in $PROPS; do
   RESULTS="$RESULTS\"$p\": {\"exit\": $rc, \"first_rule\": \"$rule\"}, "
 done
 git -C /repo checkout -- .
+rm -rf /verif/evidence && mv /verif/.work/evidence.keep /verif/evidence
 git -C /repo status --short | grep -v '^??' && echo "WARNING: /repo not clean"
 find /verif/replays -name '*.json' -newer "$OUT/patch.diff" -exec cp {} "$OUT/" \; 2>/dev/null
 python3 - "$OUT" "$ID" "$BUILD" "$SUITE" "$DEMO_WITH" "$DEMO_WITHOUT" "{${RESULTS%, }}" "$PROPS" <<'EOF'
